@@ -8,8 +8,13 @@ vars == <<stage, scn, out>>
 
 Vals == IF Wide THEN {3, 40000, 65535} ELSE {1, 2, 4}
 Cols == UNION {[1..n -> Vals] : n \in 1..MaxN}
+(* signed data (compensated / background-subtracted readings): the FIRST column holds the negated values, so its mean, *)
+(* median and coefficient of variation are negative; geometric statistics are not defined there                         *)
+Signed == {"array-float-signed", "sample-float32-signed"}
+Neg(c) == [i \in 1..Len(c) |-> 0 - c[i]]
 Containers == {"array-int", "array-float", "array-float-F", "sample-int", "sample-rfi", "sample-rfi-F", "sample-float32", "sample-double-used"}   \* -F: column-major buffer; -used: see the driver
                 \cup (IF Wide THEN {} ELSE {"array-int8", "sample-int8"})      \* 8-bit storage holds the small alphabet only
+                \cup Signed
 Form(t, xs, named) == [t |-> t, xs |-> xs, named |-> named]
 Forms == {Form("absent", <<>>, <<>>), Form("pos", <<0>>, <<0>>), Form("pos", <<1>>, <<0>>), Form("name", <<1>>, <<1>>),
           Form("list", <<0, 1>>, <<0, 0>>), Form("list", <<1, 0>>, <<1, 0>>), Form("list", <<1>>, <<1>>),
@@ -30,11 +35,12 @@ Next ==
   \/ Pick(0, Cols)
   \/ stage = 1 /\ \E y \in {c \in Cols : Len(c) = Len(scn[1])} : scn' = Append(scn, y) /\ stage' = 2 /\ UNCHANGED out
   \/ Pick(2, Containers)
-  \/ stage = 3 /\ \E f \in (IF Four THEN Forms4 ELSE Forms) : (NeedsNames(f) => scn[3] \notin {"array-int", "array-float", "array-float-F", "array-int8"})
+  \/ stage = 3 /\ \E f \in (IF Four THEN Forms4 ELSE Forms) : (NeedsNames(f) => scn[3] \notin {"array-int", "array-float", "array-float-F", "array-int8", "array-float-signed"})
                                    /\ scn' = Append(scn, f) /\ stage' = 4 /\ UNCHANGED out
   \/ /\ stage = 4
      /\ LET req == Requested(scn[4], IF Four THEN 4 ELSE 2)
-            col(c) == CASE c = 0 -> scn[1] [] c = 1 -> scn[2] [] c = 2 -> Col3(scn[1]) [] OTHER -> Col4(scn[2])
+            first == IF scn[3] \in Signed THEN Neg(scn[1]) ELSE scn[1]
+            col(c) == CASE c = 0 -> first [] c = 1 -> scn[2] [] c = 2 -> Col3(first) [] OTHER -> Col4(scn[2])
         IN out' = [scalar |-> ScalarResult(scn[4]),
                    per |-> [j \in 1..Len(req) |-> ColStats(col(req[j]), Wide)]]
      /\ stage' = 100 /\ UNCHANGED scn
@@ -43,7 +49,7 @@ Spec == Init /\ [][Next]_vars
 Done == stage = 100
 (* identities of the definitions themselves *)
 ModeIsMostFrequent == Done => \A j \in 1..Len(out.per) : out.per[j].modes # {}
-MedianBetween == (Done /\ ~Four) => \A j \in 1..Len(out.per) :
+MedianBetween == (Done /\ ~Four /\ scn[3] \notin Signed) => \A j \in 1..Len(out.per) :
    LET m == out.per[j].median  c == IF Requested(scn[4], 2)[j] = 0 THEN scn[1] ELSE scn[2] IN
    \A i \in 1..Len(c) : \E k \in 1..Len(c) : c[k] * m[2] <= m[1] /\ \E k2 \in 1..Len(c) : c[k2] * m[2] >= m[1]
 VarNonNeg == (Done /\ ~Wide) => \A j \in 1..Len(out.per) : out.per[j].var[1] >= 0
